@@ -8,6 +8,8 @@ import os
 import signal
 import sys
 import traceback
+import types
+import typing
 from datetime import datetime, timedelta, timezone
 
 from .common import sx
@@ -20,6 +22,11 @@ ERR_CODE = {"ParseError": 1, "InterpretError": 2, "FunctionError": 3, "KeyError"
             "IndexError": 6, "AttributeError": 7, "TypeError": 8, "IntegrityError": 9}
 CODE_ERR = {v: k for k, v in ERR_CODE.items()}
 CODE_ERR[10] = "Other"
+
+
+# The declared parameter types whose check the model contains (pkind 2..5 of Model/Query.v); the
+# class decides, however the annotation spells it.
+CHECKED_CLASSES = {list: 2, str: 3, int: 4, float: 5}
 
 
 class Unsupported(Exception):
@@ -78,6 +85,7 @@ class Impl:
         F = self.F
         table = []
         self.sigs = {}
+        self.decl = {}         # name -> declared type of every parameter (see declared_type)
         fpath = os.path.abspath(F.__file__)
         for name in sorted(F.functions):
             outer = F.functions[name]
@@ -103,32 +111,44 @@ class Impl:
             if str(inspect.signature(orig)) != str(osig):
                 raise HarnessBroken(f"{name}: wrapper signature differs from the function's")
             kinds = []
+            decl = []
             for p in osig.parameters.values():
+                d = self.declared_type(orig, p.annotation, f"{name}.{p.name}")
                 if p.kind == p.VAR_POSITIONAL:
-                    if p.annotation in [list, str, int, float] or p.annotation in (self.Datastore, F.TNamespace):
+                    if d[0] != "any":
                         raise HarnessBroken(f"{name}: annotated *args is outside the model")
                     kinds.append(8)
                 elif p.kind != p.POSITIONAL_OR_KEYWORD:
                     raise HarnessBroken(f"{name}: parameter kind {p.kind} is outside the model")
-                elif p.annotation == self.Datastore:
+                elif d[0] == "ds":
                     if p.default is not p.empty:
                         raise HarnessBroken(f"{name}: Datastore parameter with a default")
                     kinds.append(0)
-                elif p.annotation == F.TNamespace:
+                elif d[0] == "ns":
                     if p.default is not p.empty:
                         raise HarnessBroken(f"{name}: namespace parameter with a default")
                     kinds.append(1)
                 elif p.default is not p.empty:
+                    # a parameter with a default is not type-checked by the decorator (its stated
+                    # condition); its declared type is recorded (coverage: declared_not_checked)
                     kinds.append(7)
-                elif p.annotation in [list, str, int, float]:
-                    # The expectation comes from the DECLARED annotation, not from whether the
-                    # type-check decorator happens to be applied in the registered wrapper chain:
-                    # a built-in registered without its type check (e.g. decorator order swapped)
-                    # must show up as "wrong top-level type is not a function error", not be
-                    # silently modelled as unchecked.
-                    kinds.append({list: 2, str: 3, int: 4, float: 5}[p.annotation])
+                elif d[0] == "cls" and d[1] in CHECKED_CLASSES:
+                    # The expectation comes from the DECLARED type (annotation normalised by
+                    # declared_type: List[Event] / typing.List / "list" / Optional[list] /
+                    # Annotated[list, ...] all declare a list), not from what the decorator's own
+                    # test recognises, and not from whether the type-check decorator happens to be
+                    # applied in the registered wrapper chain: a built-in whose declared list / str
+                    # / int / float parameter is not checked must show up as "wrong top-level type
+                    # is not a function error", not be silently modelled as unchecked.
+                    kinds.append(CHECKED_CLASSES[d[1]])
                 else:
+                    # no declared type (any) -> nothing to check.  A declared class outside the
+                    # four (dict, bool, Event, a union, ...) has no kind in the model (6 = plain);
+                    # the by-construction stream of the C17 check still demands a function error
+                    # for every producible value that is not an instance of it.
                     kinds.append(6)
+                decl.append(d if kinds[-1] != 7 else ("default",) + tuple(d))
+            self.decl[name] = decl
             # required parameters must precede optional ones for the model's counting rule
             seen_opt = False
             for k in kinds:
@@ -140,6 +160,66 @@ class Impl:
             table.append((name, kinds, body))
             self.sigs[name] = (kinds, body, typechecked)
         return table
+
+    # -- declared parameter types ---------------------------------------------------------
+    def declared_type(self, fn, ann, where, depth=0):
+        """Normal form of a parameter annotation, so that the DECLARED type (not the spelling the
+        type-check decorator happens to recognise) decides what a wrong top-level argument type
+        is:  ("ds",) | ("ns",) | ("any",) | ("cls", C, optional) | ("other", text).
+        String annotations / forward references are evaluated in the function's globals,
+        NewType / Annotated / Optional[X] (= Union[X, None], X | None) are unwrapped, a
+        parametrised or bare typing generic is replaced by its origin class (List[Event],
+        typing.List -> list, Dict[str, int] -> dict, Sequence[int] -> collections.abc.Sequence).
+        Fails closed on what it cannot resolve."""
+        F = self.F
+        if depth > 10:
+            raise HarnessBroken(f"{where}: annotation nests too deep")
+        if isinstance(ann, typing.ForwardRef):
+            ann = ann.__forward_arg__
+        if isinstance(ann, str):
+            try:
+                ann = eval(ann, dict(getattr(fn, "__globals__", {})), dict(vars(typing)))
+            except Exception as e:
+                raise HarnessBroken(f"{where}: cannot resolve the string annotation {ann!r}: {e}")
+            return self.declared_type(fn, ann, where, depth + 1)
+        if ann is inspect.Parameter.empty or ann is typing.Any or ann is object or isinstance(ann, typing.TypeVar):
+            return ("any",)
+        if ann is None:
+            ann = type(None)
+        try:
+            if ann == self.Datastore:
+                return ("ds",)
+            if ann == F.TNamespace:
+                return ("ns",)
+        except Exception:
+            pass
+        if hasattr(ann, "__supertype__"):                      # typing.NewType
+            return self.declared_type(fn, ann.__supertype__, where, depth + 1)
+        origin = typing.get_origin(ann)
+        if origin is getattr(typing, "Annotated", None) and origin is not None:
+            return self.declared_type(fn, typing.get_args(ann)[0], where, depth + 1)
+        if origin is typing.Union or (getattr(types, "UnionType", None) is not None and origin is types.UnionType):
+            members = [a for a in typing.get_args(ann) if a is not type(None)]
+            optional = len(members) < len(typing.get_args(ann))
+            if len(members) == 1:
+                d = self.declared_type(fn, members[0], where, depth + 1)
+                if d[0] == "cls":
+                    return ("cls", d[1], optional or d[2])
+                return d
+            ds = [self.declared_type(fn, m, where, depth + 1) for m in members]
+            if any(d[0] == "any" for d in ds):
+                return ("any",)
+            if all(d[0] == "cls" for d in ds):                 # isinstance accepts the tuple
+                flat = []
+                for d in ds:
+                    flat += list(d[1]) if isinstance(d[1], tuple) else [d[1]]
+                return ("cls", tuple(flat), optional or any(d[2] for d in ds))
+            return ("other", repr(ann))
+        if origin is not None:
+            ann = origin
+        if isinstance(ann, type):
+            return ("cls", ann, False)
+        return ("other", repr(ann))
 
     def _recorder(self, name, orig):
         sig = inspect.signature(orig)
@@ -311,6 +391,18 @@ class Impl:
         case = sx([0, self.table_wire(), self.max_digits, [cps(b) for b in self.buckets], script,
                    cps(QNAME), cps(T_START.isoformat()), cps(T_END.isoformat()), cps(text)])
         return case, log, want
+
+
+def show_decl(d):
+    """Declared parameter type (Impl.declared_type) as text for the evidence."""
+    if d[0] == "default":
+        return "default:" + show_decl(d[1:])
+    if d[0] == "cls":
+        c = d[1]
+        return ("|".join(x.__name__ for x in c) if isinstance(c, tuple) else c.__name__) + ("?" if d[2] else "")
+    if d[0] == "other":
+        return "other:" + d[1]
+    return d[0]
 
 
 def show_outcome(o):
